@@ -36,8 +36,9 @@ Print Assumptions structural_indices_in_scope.
     implicit import of the canonical name, every export bound to the designated item, one embedded
     component per package, name-section entries resolved to the realising items.
     Side conditions: [EncInv] (consequences of the C06 graph invariant and of how the universe is built,
-    incl. "a definition has one export name") and "no import request was answered by a differently named
-    import" — both are needed for the faithful model of the current code, see the two [_refuted] theorems. *)
+    incl. "a definition has one export name"; DERIVED for every graph built through the API, see (c6)
+    [wiring_correct_reachable]) and "no import request was answered by a differently named
+    import" — needed for the faithful model of the current code, see the [_refuted] theorem. *)
 Theorem wiring_correct : forall e u g dc tau ord st names,
   EncInv e u g -> topo_orderb g ord = true ->
   encode_with_order e u g dc tau ord = ROk (st, names) ->
@@ -66,17 +67,21 @@ Example wiring_correct_nonvacuous :
             /\ encoded ops_good false <> None.
 Proof. exact good_instance. Qed.
 
-(** The unconditional statement is FALSE of the faithful model of the current code (and of the code:
-    witnesses replayed on every run, see KNOWN-FINDING lines of ./check C02):
-    - a definition exported under a second name: only the last name is encoded;
-    - an explicit import whose interface id is also imported implicitly is answered by that import. *)
-Theorem wiring_correct_multi_named_definition_refuted :
-  match encoded ops_def_two_names true with
-  | Some (dec, spec, dd) => dd = [] /\ dec <> spec
-  | None => False
-  end.
-Proof. exact def_two_names_refutes. Qed.
-Print Assumptions wiring_correct_multi_named_definition_refuted.
+(** A definition exported under another name is RENAMED ([CompositionGraph::export] after its repair: the
+    previous name leaves the export map), so "a definition has one export name" holds of every graph built through
+    the API (C01 [defs_single_reachable]) and the general statement is (c6) [wiring_correct_reachable] below, without
+    an exception for definitions. The former counterexample ([define_type foo; export(foo, bar)], replayed on the
+    real code on every run) as a regression instance: the export map is [bar -> the definition] alone and the
+    decoded wiring IS the specified one. *)
+Theorem wiring_correct_renamed_definition :
+  exports (run w_universe ops_def_two_names) = [(6%N, 0)] /\
+  exists w, encoded ops_def_two_names true = Some (w, w, []) /\ length (w_exports w) = 1.
+Proof. exact def_renamed_instance. Qed.
+Print Assumptions wiring_correct_renamed_definition.
+
+(** The statement without the second side condition is FALSE of the faithful model of the current code (and of the
+    code: witness replayed on every run, see the KNOWN-FINDING line of ./check C02): an explicit import whose
+    interface id is also imported implicitly is answered by that import. *)
 
 Theorem wiring_correct_interface_id_dedup_refuted :
   match encoded ops_dedup true with
@@ -162,12 +167,12 @@ Proof. exact ToposortMain.index_order_refuted. Qed.
 Print Assumptions toposort_index_order_for_independent_refuted.
 
 (** (c6) end to end over API histories: for EVERY graph built through the API (C06 [reach_inv]; [EncInv] from C01
-    [enc_inv_reachable]), whenever the model of [encode], its own [toposort] included, succeeds, the log decodes to the
+    [enc_inv_reachable], which needs no hypothesis about definitions any more), whenever the model of [encode], its own [toposort] included, succeeds, the log decodes to the
     wiring specified for the order [toposort] computed (a permutation of the live nodes; the graph is acyclic); a graph
     with a cycle gets the cycle error *)
 From WacV Require Import ValidSpec ValidEncInv ToposortReach.
 Theorem wiring_correct_reachable : forall e u ops dc tau st names,
-  UnivOK e u -> DefsSingle (run u ops) ->
+  UnivOK e u ->
   encode_model e u (run u ops) dc tau = ROk (st, names) ->
   (forall p, In p (e_dedup st) -> fst p = snd p) ->
   exists ord, toposort_full (run u ops) = inl ord /\ Permutation ord (node_ids (run u ops)) /\ ~ has_cycle (run u ops) /\
